@@ -11,9 +11,9 @@
 (*        lanes, a byte carries one of two values                          *)
 (*  mo  = <<ack, err, lane_0 .. lane_(L-1)>>                               *)
 (* A request is held unchanged until it is terminated by ack and/or err.   *)
-(* c: lanes, words, init, wwords / rwords (words written / read), walpha (write  *)
-(*    <<sel, data>> pairs), rsels (sel                                      *)
-(*    values of reads), readonly, badlo (see FlatMemAxiLite)               *)
+(* c: lanes, words, init, wwords / rwords (words written / read), walpha   *)
+(*    (write <<sel, data>> pairs), rsels (sel values of reads), dirs,      *)
+(*    readonly, badlo (see FlatMemAxiLite)                                 *)
 (***************************************************************************)
 EXTENDS Integers, Sequences, FiniteSets, TLC
 
